@@ -52,17 +52,17 @@ func (o Op) post() AbsState { return AbsState{Synced: o.Post.Synced, Rows: o.Pos
 // Plan is one instance of the ChainSync model plus the syncer flavours its behaviours are
 // replayed on.
 type Plan struct {
-	Name                                  string
+	Name                                    string
 	MaxBlocks, MaxNum, MaxLeaves, MaxEvents int
-	Keys                                  []string
-	D, MaxR, Start0                       int
-	Precond                               string
-	FKinds                                []string
-	SimNum, SimLen                        int // > 0: behaviours come from TLC simulation
-	Flavors                               []string
-	Stretch                               int
-	MaxBeh                                int // cap on replayed behaviours per flavour
-	EnumEvery                             int // full concrete fault enumeration on every n-th behaviour (1 = all)
+	Keys                                    []string
+	D, MaxR, Start0                         int
+	Precond                                 string
+	FKinds                                  []string
+	SimNum, SimLen                          int // > 0: behaviours come from TLC simulation
+	Flavors                                 []string
+	Stretch                                 int
+	MaxBeh                                  int // cap on replayed behaviours per flavour
+	EnumEvery                               int // full concrete fault enumeration on every n-th behaviour (1 = all)
 }
 
 // codeShape says which variant of the code-shaped spec describes the CURRENT repository code.
